@@ -132,6 +132,10 @@ def scenario(T, case, prefix):
     T.prove(prefix + ".step.one_results_event", len(events) == 1)
     if len(events) == 1:
         data = events[0].data
+        # every handler of the plan chain and every observer reads the same event: the result collections are sequences that
+        # can be read again (a generator would be empty for the second reader, and 'last' trackers read it backwards)
+        T.prove(prefix + ".step.delivered_result_collections_can_be_read_by_every_receiver",
+                all(isinstance(v, (list, tuple)) for k, v in data.items() if k in ("results", "transformed_results")), repr({k: type(v).__name__ for k, v in data.items()}))
         if case["tr"]:
             T.prove(prefix + ".step.results_key_holds_the_user_domain_results_and_transformed_results_the_optimizer_domain_ones",
                     list(data.get("transformed_results", ())) == list(opt_results)
